@@ -309,6 +309,12 @@ message M {
   extend M { optional int32 x = 100; }
   ;
 }
+message OnlySemi { ; }
+message OnlySemis { ;; ; }
+enum SemiEnum { ; }
+message SemiGroup { optional group SG = 1 { ; } }
+service SemiSvc { ;; }
+service SemiRpcs { rpc SemiRpc (M) returns (M) { ; }; rpc SemiRpc2 (M) returns (M) { ;; } }
 service S { option (so) = true; rpc R (stream .x.y.M) returns (M); rpc Q (M) returns (stream M) { option idempotency_level = IDEMPOTENT; }; }
 ;
 `
@@ -342,8 +348,25 @@ extend EM { local.z.W xe = 100; }
 service S24 { rpc R (export.i.I) returns (stream local.o.O); }
 `
 
-// handWritten maps the ids of the parse-only skeletons to their text.
-var handWritten = map[string]string{"x": extras, "e24": extras24}
+// tail1 is a hand-written file that LINKS (with featgen's helper files) and ends in a declaration closed by
+// `;`: only there does a comment at the very end of the file become the trailing comment of a location
+// (after a final `}` it belongs to nothing).  Its descriptor shape is SrcInfoShape!LocalShape("t1").
+const tail1 = `syntax = "proto3";
+package t.one;
+import "dep.proto";
+message A {
+  int32 f = 1;
+  dep.pkg.DepMsg d = 2;
+}
+enum E {
+  E_ZERO = 0;
+}
+option java_package = "com.t";
+option deprecated = false;
+`
+
+// handWritten maps the ids of the hand-written skeletons to their text.
+var handWritten = map[string]string{"x": extras, "e24": extras24, "t1": tail1}
 
 type skelOut struct {
 	ID       string     `json:"id"`
@@ -417,14 +440,15 @@ func runSkeleton(in *bufio.Scanner, w *bufio.Writer) error {
 		if err := json.Unmarshal(in.Bytes(), &req); err != nil {
 			return err
 		}
-		text := handWritten[req.ID]
-		if req.Syntax != "" {
+		text, hand := handWritten[req.ID]
+		if hand && req.Syntax == "" {
+			req.Syntax = "none"
+		} else if hand {
+			// linkable hand-written skeleton: keeps its syntax, no featgen features
+		} else if req.Syntax != "" {
 			text = featgen.Render(&featgen.Case{Syntax: req.Syntax, Features: req.Features})[featgen.Main]
 		} else {
-			if text == "" {
-				return fmt.Errorf("no hand-written skeleton %q", req.ID)
-			}
-			req.Syntax = "none"
+			return fmt.Errorf("no hand-written skeleton %q", req.ID)
 		}
 		if req.Features == nil {
 			req.Features = []string{}
